@@ -5,3 +5,4 @@ concrete engine model (Props/EngineImplSound.lean: EngineImpl_sound_C07_cycle).
 import LLBuild.Props.C07
 import LLBuild.Props.EngineImplSound
 import LLBuild.Props.EngineImplTerm
+import LLBuild.Props.EngineImplAsync
